@@ -37,6 +37,8 @@ ASSUMPTIONS = [
     "that cannot be told from its jump under a 1e-12 relative perturbation) are counted and skipped",
     "Max/Min/sign/erf are outside the compared grammar: py-pde's numpy printer emits `max(a, b)` resolved to numpy.max "
     "(an error, not a wrong value), sign becomes a Piecewise that fails on arrays, erf cannot be compiled by numba",
+    "numba_backend._make_expression_array (deprecated get_compiled_array) prints components with str(): compile-time "
+    "refusals of names that differ between sympy and numpy are counted, not judged; returned values are judged",
 ]
 TRUSTED_EXTRA = [
     "libm functions of Lean's Float equal CPython's math functions to 1e-12 relative",
@@ -529,22 +531,54 @@ def _alarm(_sig, _frm):
     raise _Timeout()
 
 
+class _sympy_time_limit:
+    """time limit for the sympy phases only (parsing, simplify, diff).  It must never fire inside
+    numba: an exception raised in the middle of numba's lazy initialisation leaves the process
+    with half-initialised tables (`KeyError: <ufunc 'positive'>`, `coverage has no attribute
+    types`) and poisons every later program of the worker."""
+
+    def __enter__(self):
+        import signal
+
+        signal.signal(signal.SIGALRM, _alarm)
+        signal.alarm(int(os.environ.get("C11_PROG_TIMEOUT", "20")))
+
+    def __exit__(self, *exc):
+        import signal
+
+        signal.alarm(0)
+        return False
+
+
+_WARM = []
+
+
+def _warm_up_numba():
+    """force numba's lazy initialisation outside any time limit"""
+    if _WARM:
+        return
+    import numpy as np
+    from pde.tools.expressions import ScalarExpression
+
+    f = ScalarExpression("sin(x) + hypot(x, 1) + heaviside(x, 0.5)", ["x"]).get_function("numba")
+    f(1.0)
+    f(np.array([1.0, 2.0]))
+    _WARM.append(True)
+
+
 def worker(prog):
     """run one program through py-pde; returns {"id", "obs": [(route, point, comp, value)], "errs": [(route, text)]}"""
-    import signal
     import warnings
 
     warnings.filterwarnings("ignore")
-    signal.signal(signal.SIGALRM, _alarm)
-    signal.alarm(int(os.environ.get("C11_PROG_TIMEOUT", "20")))
+    if prog["jit"]:
+        _warm_up_numba()
     obs, errs = [], []
     try:
         _run_program(prog, obs, errs)
     except _Timeout:
         errs.append(("timeout", "program exceeded the time limit"))
         obs[:] = []
-    finally:
-        signal.alarm(0)
     return {"id": prog["id"], "obs": obs, "errs": errs}
 
 
@@ -611,8 +645,9 @@ def _run_program(prog, obs, errs):
         text = prog["texts"]
         sig = None if prog["sig_none"] else [l if len(l) > 1 else l[0] for l in prog["sig"]]
         try:
-            e = ScalarExpression(text, sig, user_funcs=ufs, consts=consts, repl=prog["repl"] or None,
-                                 allow_indexed=prog["indexed"])
+            with _sympy_time_limit():
+                e = ScalarExpression(text, sig, user_funcs=ufs, consts=consts, repl=prog["repl"] or None,
+                                     allow_indexed=prog["indexed"])
         except _Timeout:
             raise
         except Exception as ex:
@@ -667,7 +702,8 @@ def _run_program(prog, obs, errs):
 
         for v in prog["diff"]:
             def r_diff(v=v):
-                de = e.differentiate(v)
+                with _sympy_time_limit():
+                    de = e.differentiate(v)
                 for i in range(n_sc):
                     record(f"differentiate:{v}", i, de(*args_of(prog["points"][i])))
                 if npts > n_sc:
@@ -679,7 +715,8 @@ def _run_program(prog, obs, errs):
             guarded(f"differentiate:{v}", r_diff)
         if prog["diff"]:
             def r_derivs():
-                ds = e.derivatives
+                with _sympy_time_limit():
+                    ds = e.derivatives
                 nvars = len(e.vars)
                 for i in range(n_sc):
                     record("derivatives", i, ds(*args_of(prog["points"][i])), (nvars,))
@@ -693,7 +730,8 @@ def _run_program(prog, obs, errs):
         text = _nested_text(prog["texts"])
         sig = [l[0] for l in prog["sig"]]
         try:
-            e = TensorExpression(text, sig, consts=consts)
+            with _sympy_time_limit():
+                e = TensorExpression(text, sig, consts=consts)
         except _Timeout:
             raise
         except Exception as ex:
@@ -727,13 +765,15 @@ def _run_program(prog, obs, errs):
                 guarded("tensor-numba-array-fn", r_arr)
         for v in prog["diff"]:
             def r_diff(v=v):
-                de = e.differentiate(v)
+                with _sympy_time_limit():
+                    de = e.differentiate(v)
                 for i in range(n_sc):
                     record(f"tensor-differentiate:{v}", i, de(*prog["points"][i]), shape)
             guarded(f"tensor-differentiate:{v}", r_diff)
         if prog["diff"]:
             def r_derivs():
-                ds = e.derivatives
+                with _sympy_time_limit():
+                    ds = e.derivatives
                 for i in range(n_sc):
                     record("tensor-derivatives", i, ds(*prog["points"][i]), (len(sig),) + shape)
             guarded("tensor-derivatives", r_derivs)
@@ -770,7 +810,8 @@ def _run_program(prog, obs, errs):
         cls = [pde.ScalarField, pde.VectorField, pde.Tensor2Field][rank]
 
         def r_field():
-            fld = cls.from_expression(grid, prog["texts"], user_funcs=ufs, consts=fconsts)
+            with _sympy_time_limit():       # sympy + plain numpy only
+                fld = cls.from_expression(grid, prog["texts"], user_funcs=ufs, consts=fconsts)
             data = np.asarray(fld.data)
             shape = (grid.dim,) * rank
             flat = data.reshape(shape + (npts,))
@@ -1059,6 +1100,12 @@ def judge_program(ctx, p, res, ans_main, ansF, stats):
         tolerated = route == "timeout"
         if tolerated:
             ctx.note(f"time limit exceeded (sympy.simplify): {p['texts']!r}")
+        if route.startswith("tensor-numba-array-fn") and msg.split(":")[0] in ("TypingError", "NameError"):
+            # `_make_expression_array` (only reachable through the deprecated get_compiled_array) prints the
+            # components with str(): a name that differs between sympy and numpy (E from exp(1), Abs, asin...)
+            # is refused at compile time.  Refusals are counted; values it does return are compared strictly.
+            ctx.hist("refused", "tensor-numba-array-fn:" + msg.split(":")[0])
+            continue
         # a route may legitimately fail only where every reference is undefined
         if not tolerated and n_ok > 0:
             ctx.monitor_fail(route.split(":")[0], case, msg, "a value", f"{route.split(':')[0]} raises on a valid program",
